@@ -150,6 +150,22 @@ func init() {
 		}
 		return Tuple{BVI(64, int64(len(b))), Iface{}}
 	})
+	// crypto/rand.Int(reader, max): an arbitrary value in [0, max); panics for max <= 0 like the library
+	reg("crypto/rand.Int", func(fr *frame, fn *ssa.Function, a []Value) Value {
+		max := bigOf(a[1], "rand.Int")
+		if fr.p.branch(ILe(max, IntI(0))) {
+			panic(&goPanic{kind: "explicit", msg: "crypto/rand: argument to Int is <= 0"})
+		}
+		v := fr.p.internalVar("crandint", SInt)
+		if fr.p.P.cfg.CrandNonzero {
+			// callers that redraw on zero: the zero draw is unobservable, skip it
+			fr.p.assume(ILe(IntI(1), v))
+		} else {
+			fr.p.assume(ILe(IntI(0), v))
+		}
+		fr.p.assume(ILt(v, max))
+		return Tuple{newBig(v), Iface{}}
+	})
 	_ = fmt.Sprint
 }
 
